@@ -35,9 +35,10 @@ VARIABLES
     ever,      \* {<<kind, id>>} every file the directory ever contained
     mine,      \* {<<kind, id>>} files created by the current incarnation (open for append)
     faulted,   \* fault mode: has the injected fault fired, and in which operation
-    bad        \* a verdict computed while consuming the last event: "" or a reason
+    bad,       \* a verdict computed while consuming the last event: "" or a reason
+    bad2       \* a second, independent verdict on the same event (the aftermath of a probe)
 
-vars == <<l, mode, allowed, inflight, ever, mine, faulted, bad>>
+vars == <<l, mode, allowed, inflight, ever, mine, faulted, bad, bad2>>
 
 NoOp == [op |-> "none"]
 V(p, why) == [p |-> p, why |-> why]     \* a verdict: property id and reason
@@ -64,7 +65,7 @@ MaxOr(S, d) == IF S = {} THEN d ELSE Max(S)
 Init ==
     /\ l = 2 /\ mode = "crash" /\ allowed = EmptyMap /\ inflight = NoOp
     /\ ever = {} /\ mine = {} /\ faulted = [fired |-> FALSE, reported |-> FALSE, inop |-> FALSE, op |-> "-"]
-    /\ bad = OK
+    /\ bad = OK /\ bad2 = OK
 
 Reset ==
     /\ Rec[l].ev = "reset"
@@ -72,6 +73,7 @@ Reset ==
     /\ allowed' = EmptyMap /\ inflight' = NoOp /\ ever' = {} /\ mine' = {}
     /\ faulted' = [fired |-> FALSE, reported |-> FALSE, inop |-> FALSE, op |-> "-"]
     /\ bad' = IF Rec[l].res = "ok" THEN OK ELSE V("C03", "open of an empty directory failed")
+    /\ bad2' = OK
 
 Inv ==
     /\ Rec[l].ev = "inv"
@@ -79,7 +81,7 @@ Inv ==
     \* a new incarnation starts with open / reopen: it owns no file yet
     /\ mine' = IF Rec[l].op \in {"open", "reopen"} THEN {} ELSE mine
     /\ faulted' = [faulted EXCEPT !.inop = FALSE]
-    /\ bad' = OK
+    /\ bad' = OK /\ bad2' = OK
     /\ UNCHANGED <<mode, allowed, ever>>
 
 \* C14: the only calls a store may issue on its directory
@@ -105,7 +107,7 @@ SysVerdict(r) ==
 Sys ==
     /\ Rec[l].ev = "sys"
     /\ LET r == Rec[l] f == <<r.kind, r.id>> IN
-        /\ bad' = SysVerdict(r)
+        /\ bad' = SysVerdict(r) /\ bad2' = OK
         /\ ever' = IF r.call = "create" /\ r.res >= 0 THEN ever \cup {f} ELSE ever
         /\ mine' = IF r.call = "create" /\ r.res >= 0 THEN mine \cup {f}
                    ELSE IF r.call = "unlink" /\ r.res >= 0 THEN mine \ {f} ELSE mine
@@ -146,9 +148,40 @@ ProbeVerdict(r, prop) ==
                     THEN V("C14", "recovery removed files")
                   ELSE OK
 
+\* the aftermath of a probe: the recovered store (after the put and the restart above) is used like any other:
+\* deletes and overwrites, a merge pass, a restart, and a restart from a copy without hint files.  Whatever the
+\* kill left behind (outputs of an unfinished merge, hint files that lack entries, torn tails) must not matter.
+RECURSIVE AftMap(_, _, _)
+AftMap(m, acts, i) ==
+    IF i > Len(acts) THEN m
+    ELSE LET a == acts[i]
+         IN AftMap([m EXCEPT ![a[2]] = IF a[1] = "del" THEN None ELSE a[3]], acts, i + 1)
+RECURSIVE AftResultsOk(_, _, _, _)
+AftResultsOk(m, acts, res, i) ==
+    IF i > Len(acts) THEN TRUE
+    ELSE LET a == acts[i]
+             exp == IF a[1] = "put" THEN "ok" ELSE IF m[a[2]] = None THEN "false" ELSE "true"
+         IN res[i] = exp /\ AftResultsOk([m EXCEPT ![a[2]] = IF a[1] = "del" THEN None ELSE a[3]], acts, res, i + 1)
+AftVerdict(r, prop) ==
+    LET rec == r.rec IN
+    IF ~rec.opened \/ ~Has(rec, "aft") \/ ~rec.aft.done \/ rec.cont.put # "ok" THEN OK
+    ELSE LET a  == rec.aft
+             m1 == [rec.map EXCEPT ![rec.cont.k] = rec.cont.v]
+             m2 == AftMap(m1, a.acts, 1)
+         IN IF \E k \in Keys : rec.cont.gets2[k] # m1[k] THEN OK      \* already reported by the main verdict
+            ELSE IF ~AftResultsOk(m1, a.acts, a.results, 1) THEN V(prop, "the recovered store answers a delete / set wrongly")
+            ELSE IF a.merge # "ok" THEN V(prop, "a merge on the recovered store fails: " \o a.merge)
+            ELSE IF \E k \in Keys : a.gets3[k] # m2[k] THEN V(prop, "the recovered store misreads after deletes, sets and a merge")
+            ELSE IF ~a.with.opened THEN V(prop, "the recovered store cannot be reopened after a merge: " \o a.with.err)
+            ELSE IF \E k \in Keys : a.with.gets[k] # m2[k] THEN V(prop, "after recovery, deletes / sets, a merge and a restart a key reads a value it should not have")
+            ELSE IF ~a.without.opened THEN V("C12", "after a crash and a merge the directory cannot be opened without its hint files: " \o a.without.err)
+            ELSE IF \E k \in Keys : a.without.gets[k] # a.with.gets[k] THEN V("C12", "after a crash and a merge, recovery without hint files reads differently")
+            ELSE OK
+
 Probe ==
     /\ Rec[l].ev \in {"crash", "power"}
     /\ bad' = ProbeVerdict(Rec[l], IF Rec[l].ev = "crash" THEN "C03" ELSE "C09")
+    /\ bad2' = AftVerdict(Rec[l], IF Rec[l].ev = "crash" THEN "C03" ELSE "C09")
     /\ UNCHANGED <<mode, allowed, inflight, ever, mine, faulted>>
 
 Succeeded(r) == r.res \in {"ok", "true", "false"}
@@ -178,7 +211,7 @@ Ret ==
              ELSE IF Has(r, "gets") /\ \E k \in Keys : r.gets[k] \notin allowed'[k]
                     THEN V(IF Faulty THEN "C20" ELSE "C01", "a key reads a value it should not have")
              ELSE OK
-    /\ inflight' = NoOp
+    /\ inflight' = NoOp /\ bad2' = OK
     /\ UNCHANGED <<mode, ever, mine>>
 
 Final ==
@@ -188,6 +221,7 @@ Final ==
                 ELSE IF ~MapAllowed(rec.map, allowed) THEN V("C20", "after the fault and a restart a key reads a value it should not have")
                 ELSE IF FALSE THEN V("C20", "unreported")
                 ELSE OK
+    /\ bad2' = OK
     /\ UNCHANGED <<mode, allowed, inflight, ever, mine, faulted>>
 
 Next == /\ l <= Len(Rec)
@@ -197,8 +231,10 @@ Spec == Init /\ [][Next]_vars
 
 -----------------------------------------------------------------------------------------
 C01_NoFailureWithoutFault == bad.p # "C01"
-C03_CrashSafe == bad.p # "C03"
-C09_PowerLossSafe == bad.p # "C09"
+C03_CrashSafe == bad.p # "C03" /\ bad2.p # "C03"
+C09_PowerLossSafe == bad.p # "C09" /\ bad2.p # "C09"
+\* C12 in histories with a kill: whatever a crash left behind, hint files stay an accelerator
+C12_AfterCrash == bad2.p # "C12"
 \* C05 for a merge pass that FAILS: it too leaves every key reading as before, now and after a restart
 \* (the fault-containment verdicts of runs whose failed call was issued by a merge)
 C05_FailedMergeKeeps == ~(bad.p = "C20" /\ faulted.fired /\ faulted.op = "merge")
@@ -210,5 +246,5 @@ Accepted ==
     IN IF d = Len(Rec) THEN TRUE
        ELSE Print(<<"TRACE NOT ACCEPTED: consumed", d - 1, "of", Len(Rec) - 1>>, FALSE)
 
-ErrAlias == [line |-> l - 1, why |-> bad.why, event |-> Rec[l - 1].ev, inflight |-> inflight, allowed |-> allowed]
+ErrAlias == [line |-> l - 1, why |-> IF bad.p # "" THEN bad.why ELSE bad2.why, event |-> Rec[l - 1].ev, inflight |-> inflight, allowed |-> allowed]
 ===================================================================================
